@@ -156,6 +156,31 @@ CLAIMED["C15"] = {
     "not decided here (ESS formula: C16). Termination is not proved.",
 }
 
+CLAIMED["C13"] = {
+    "text": "Proof of an interrupt invariant: the resumable-state invariant "
+    "RI (full sorted live set, recorded == integrated, iteration == "
+    "recorded count == insertion-index count, no point both recorded and "
+    "live, no duplicated live point) is asserted after EVERY simple "
+    "statement of consume_sample, insert_live_point, finalise and "
+    "nested_sampling_loop (statement-granular interruption points, callee "
+    "contracts from C01/C15); the handler is proved to request exactly one "
+    "forced checkpoint and to end in SystemExit(self.exit_code) on every "
+    "path; the importance sampler's checkpoint is proved not to write for "
+    "a non-periodic (signal) request, so its last boundary checkpoint is "
+    "intact. RI FAILS at 18 statement boundaries of the standard sampler "
+    "(inside consume_sample, insert_live_point and finalise): a genuine "
+    "defect, each point replayed on the real code with a line-level "
+    "settrace signal injection + resume (duplicates / lost / double "
+    "integration); listed in known_findings.txt, reported as KNOWN-FINDING. "
+    "Any other statement where RI fails is a violation.",
+    "note": "Not decided: bytecode-granular interruption inside a single "
+    "statement (e.g. inside numpy's slice copy); signals during proposal "
+    "population / flow training internals are covered only through the "
+    "callee frames (they do not touch the RI attributes: frame inference). "
+    "Assumed: initial live points are pairwise distinct records (part of "
+    "the trusted initialise contract).",
+}
+
 NA = {
     "C06": "statistical calibration over seeds: no pre/post-condition on a "
     "function expresses a distributional claim and no deductive back end "
